@@ -196,9 +196,11 @@ def render_section(sec):
         return list(sec[1])
     if kind == "elem":
         b = BLOCK[sec[1]]
-        return ["<<<%s_BEGIN>>>\n" % b] + [line_text(l) for l in sec[2]] + ["<<<%s_END>>>\n" % b]
+        ib, ie = sec[3] if len(sec) > 3 else ("", "")
+        return [ib + "<<<%s_BEGIN>>>\n" % b] + [line_text(l) for l in sec[2]] + [ie + "<<<%s_END>>>\n" % b]
     if kind == "sig":
-        return ["<<<PER_ACTION_SIGNATURE_BEGIN>>>\n"] + [line_text(l) for l in sec[1]] + ["<<<PER_ACTION_SIGNATURE_END>>>\n"]
+        ib, ie = sec[2] if len(sec) > 2 else ("", "")
+        return [ib + "<<<PER_ACTION_SIGNATURE_BEGIN>>>\n"] + [line_text(l) for l in sec[1]] + [ie + "<<<PER_ACTION_SIGNATURE_END>>>\n"]
     _k, s_pre, e_pre, g_body, e_post, s_post = sec
     return (["<<<PER_STATETRANSITION_BEGIN>>>\n"] + s_pre + ["<<<PER_EVENTTRANSITION_BEGIN>>>\n"] + e_pre + ["<<<PER_GUARDTRANSITION_BEGIN>>>\n"]
             + g_body + ["<<<PER_GUARDTRANSITION_END>>>\n"] + e_post + ["<<<PER_EVENTTRANSITION_END>>>\n"] + s_post + ["<<<PER_STATETRANSITION_END>>>\n"])
@@ -248,9 +250,10 @@ def section(rng):
         return ("plain", [rng.choice(TEXT) + "\n" for _ in range(rng.randint(1, 4))])
     if r < 0.7:
         fam = rng.choice(["STATE", "EVENT", "ACTION", "GUARD", "STRUCT", "MSG", "PROTOMSG"])
-        return ("elem", fam, [body_line(rng, fam) if rng.random() < 0.85 else [["L", "    literal;"]] for _ in range(rng.randint(1, 3))])
+        return ("elem", fam, [body_line(rng, fam) if rng.random() < 0.85 else [["L", "    literal;"]] for _ in range(rng.randint(1, 3))],
+                (rng.choice(["", "    ", "\t", "  // "]), rng.choice(["", "        "])))
     if r < 0.8:
-        return ("sig", [body_line(rng, rng.choice(["ACTION", "EVENT"])) for _ in range(rng.randint(1, 2))])
+        return ("sig", [body_line(rng, rng.choice(["ACTION", "EVENT"])) for _ in range(rng.randint(1, 2))], (rng.choice(["", "    "]), rng.choice(["", "  "])))
     return ("trans", [line_text(body_line(rng, "STATE", False)) for _ in range(rng.randint(0, 1))],
             [line_text(body_line(rng, "EVENT", False)) for _ in range(rng.randint(0, 1))],
             [trans_line(rng) for _ in range(rng.randint(1, 4))],
@@ -291,9 +294,11 @@ def wire16(secs):
         if sec[0] == "plain":
             t += [["X", l[:-1]] for l in sec[1]]
         elif sec[0] == "elem":
-            t.append(["B", sec[1], [l for l in sec[2]]])
+            ib, ie = sec[3] if len(sec) > 3 else ("", "")
+            t.append(["B", sec[1], ib, ie, [l for l in sec[2]]])
         elif sec[0] == "sig":
-            t.append(["S", [l for l in sec[1]]])
+            ib, ie = sec[2] if len(sec) > 2 else ("", "")
+            t.append(["S", ib, ie, [l for l in sec[1]]])
         else:
             return None
     return t
